@@ -24,14 +24,28 @@ func TestC13_Boosts(t *testing.T) {
 	rec.Rule("(A) databases x queries x boost maps (1-3 words from the vocabulary incl. words absent from query and documents, factors in [1,5]) x NLP on/off x fuzzy on/off, Limit >= N: paired SearchUniversal with and without ContextBoosts. Oracle: same result set; a command none of whose fields contains a boosted word keeps its score bit-for-bit; a command that contains one never scores lower. Non-trivial = a boosted word occurs in the query and in some but not all results.")
 	rapid.Check(t, func(t *rapid.T) {
 		cmds, cls := gen.DB(t, gen.CmdOpts{Platforms: true, Sized: true, Heavy: true}, []int{0, 1, 3, 10, 1})
+		ubiq := ""
+		if rapid.IntRange(0, 4).Draw(t, "ubiquitous") == 0 {
+			// a word in (nearly) every entry of a 50-200 entry database: its idf is as small as it gets
+			if len(cmds) < 50 {
+				cmds = append(cmds, gen.Bulk(t, rapid.IntRange(50, 200).Draw(t, "pad-n"), gen.CmdOpts{})...)
+			}
+			ubiq = gen.Ubiquitous(t, cmds)
+		}
 		db := gen.Load(t, cmds)
 		warmUp(t, db, cmds)
 		q, qc := gen.Query(t, cmds, []gen.QueryClass{"vocab", "vocab", "vocab", "nlp", "nlp", "mixed", "typo", "long"})
+		if ubiq != "" {
+			q = rapid.SampledFrom([]string{ubiq, ubiq + " " + q, q + " " + ubiq}).Draw(t, "ubiquitous-query")
+		}
 		opt := gen.Options(t, gen.OptSpec{N: len(cmds), BigLimit: true, NoBoosts: true})
 		toks := gen.Tokens(cmds)
 		qtoks := ref.Tokenize(q)
 		pool := append(append([]string{"zzqx", "git", "docker", "build"}, toks...), qtoks...)
 		pool = append(pool, qtoks...) // query words are the interesting ones
+		if ubiq != "" {
+			pool = append(pool, ubiq, ubiq, ubiq, ubiq, ubiq, ubiq)
+		}
 		for _, w := range qtoks {
 			// near misses of query words: another word, however similar, is another word
 			pool = append(pool, w+"s", w+"es", w+"ing", "x"+w, w+w)
